@@ -2547,6 +2547,14 @@ static void setDecodeDefaults(tjinstance *this, int pixelFormat)
     this->dinfo.cur_comp_info[i] = compptr;
   }
   this->dinfo.data_precision = 8;
+  /* The planar YUV image being decoded is unrelated to any JPEG image that
+     this instance previously decompressed, so don't let the properties of
+     that image (lossless/arithmetic-coded, JFIF/Adobe markers) influence the
+     module and colorspace selection. */
+  this->dinfo.master->lossless = FALSE;
+  this->dinfo.arith_code = FALSE;
+  this->dinfo.saw_JFIF_marker = this->dinfo.saw_Adobe_marker = FALSE;
+  this->dinfo.Adobe_transform = 0;
   for (i = 0; i < 2; i++) {
     if (this->dinfo.quant_tbl_ptrs[i] == NULL)
       this->dinfo.quant_tbl_ptrs[i] =
